@@ -278,10 +278,12 @@ func switchThreading(v *VM) *val.Val {
 			v.Push(vl)
 
 		case OP_OBJ_LOAD:
-			idx, w := v.readMediumInt(v.pc)
+			name, w := v.readConst(v.pc)
 			v.pc += w
-			o := v.Pop().Obj()
-			v.Push(o.V[idx])
+			// by name: an equal object type may list its fields in another order
+			vl, ok := v.Pop().Obj().Get(name.(string))
+			util.Assert(ok, "undefined field %s", name)
+			v.Push(vl)
 
 		// -----------------------------------------------
 		case OP_LEN_STR:
